@@ -12,3 +12,4 @@ import RSVerif.Properties.C15
 #print axioms RS.tables_spec
 #print axioms RS.table_construction_correct
 #print axioms RS.source_tables_and_integer_code
+#print axioms RS.source_mul_tables
